@@ -1,16 +1,18 @@
 (** C17 - "validate always terminates with a verdict": literal models of the
     code fragments the property's anchors name.  Definitions only.
 
-    1. validate_version_nums            src/ocfl/validate/serde.rs:1291-1334
-    2. InventoryVisitor::visit_map      src/ocfl/validate/serde.rs:143-500 (field loop, final guards,
-       Inventory::new(..).unwrap()) and Inventory::new, src/ocfl/inventory.rs:95-131
+    1. validate_version_nums            src/ocfl/validate/serde.rs:1312-1378 (after commit 719e6a5) and
+       VersionNum::next, src/ocfl/types.rs:297-314 (after commit 476b184)
+    2. InventoryVisitor::visit_map      src/ocfl/validate/serde.rs:151-514 (field loop, final guards,
+       Inventory::new(..).unwrap(); blank id after commit b116ae5) and Inventory::new, src/ocfl/inventory.rs:95-131
     3. the cross-inventory checks       src/ocfl/validate/mod.rs:607-641, 1534-1707
-       (get_version(..).unwrap(), content_paths(..).unwrap(), PrettyPrintSet types.rs:1343-1360)
-    4. validate_non_conflicting         src/ocfl/validate/serde.rs:1416-1431 (cost)
-    5. ContentPathsIter::next           src/ocfl/validate/mod.rs:2092-2113
-    6. IncrementalValidatorImpl::next   src/ocfl/validate/mod.rs:1912-2007
-    7. Display for VersionNum with a dynamic width, src/ocfl/types.rs:395-399 *)
+       (get_version(..).unwrap(), content_paths(..).unwrap(), PrettyPrintSet types.rs:1344-1361)
+    4. validate_non_conflicting         src/ocfl/validate/serde.rs:1464-1479 (cost)
+    5. ContentPathsIter::next           src/ocfl/validate/mod.rs:2103-2124
+    6. IncrementalValidatorImpl::next   src/ocfl/validate/mod.rs:1923-2018
+    7. Display for VersionNum with a dynamic width, src/ocfl/types.rs:396-400 *)
 From Rocfl Require Export Base.Bytes Model.VersionNum.
+From Rocfl Require Import Generated.Consts.
 Open Scope N_scope.
 
 (** [.unwrap()] : a refusal ([Err]) becomes a panic *)
@@ -19,40 +21,68 @@ Definition unwrap {A} (r : res A) : res A := match r with Err => Panic | x => x 
 (* ------------------------------------------------------------------ *)
 (** * 1. validate_version_nums *)
 
-(** In this section every Rust-level [Err] is unwrapped (=> [Panic]); the
-    constructor [Err] is therefore free and stands for "fuel exhausted", so
-    that theorems can say "with enough fuel the loop ends with [Ok]". *)
+(** VersionNum::next, src/ocfl/types.rs:297-314 as it is NOW (the shared Model/VersionNum.v
+    [vnext] describes the code before commit 476b184):
+      let max = match self.width { 0 => u32::MAX,
+                                   width => 10u32.checked_pow(width - 1).map_or(u32::MAX, |pow| pow - 1) };
+      if self.number >= max { return Err(..) }
+      Ok(Self { number: self.number + 1, width: self.width })
+    [checked_pow] never overflows (10^e fits a u32 exactly for e <= 9), [pow - 1] has pow >= 1 and
+    [number + 1] is reached with number < max <= u32::MAX only: the same in debug and release. *)
+Definition vnext_cur (v : vnum) : res vnum :=
+  let max := if vn_width v =? 0 then U32MAX
+             else if vn_width v - 1 <=? 9 then 10 ^ (vn_width v - 1) - 1 else U32MAX in
+  if max <=? vn_number v then Err else Ok (mkV (vn_number v + 1) (vn_width v)).
 
-(** serde.rs:1307-1313
+(** serde.rs:1312-1313 [const MAX_MISSING_VERSIONS_LISTED: u32 = 100], read from the source on every run *)
+Definition MAX_LISTED : N := K_MAX_MISSING_VERSIONS_LISTED.
+
+(** what the function costs: E010 errors recorded (memory) and loop iterations (time: one per
+    element of the set plus one per turn of the inner while loop) *)
+Record vcost := mkC { c_errors : N; c_iters : N }.
+Definition c0 : vcost := mkC 0 0.
+
+(** In this section every Rust-level [Err] is unwrapped (=> [Panic]); the constructor [Err]
+    is therefore free and stands for "fuel exhausted". *)
+
+(** serde.rs:1346-1352, the inner loop (small gaps only)
       while next_version < *version {
-          result.error(E010, ..);                       <- cost + 1
+          result.error(E010, ..);                       <- errors + 1
           next_version = next_version.next().unwrap();
       }
-    [Ord for VersionNum] compares numbers only (types.rs:413-417). *)
-Fixpoint gap_loop (dbg : bool) (fuel : nat) (next : vnum) (target : N) (cost : N)
-  : res (vnum * N) :=
+    [Ord for VersionNum] compares numbers only (types.rs:414-418). *)
+Fixpoint gap_loop (fuel : nat) (next : vnum) (target : N) (c : vcost) : res (vnum * vcost) :=
   if vn_number next <? target then
     match fuel with
     | O => Err
-    | S f => match unwrap (vnext dbg next) with
-             | Ok n' => gap_loop dbg f n' target (cost + 1)
+    | S f => match unwrap (vnext_cur next) with
+             | Ok n' => gap_loop f n' target (mkC (c_errors c + 1) (c_iters c + 1))
              | _ => Panic
              end
     end
-  else Ok (next, cost).
+  else Ok (next, c).
 
-(** serde.rs:1296-1316, the [for version in version_nums] loop; [vs] is the
-    iteration order of the BTreeSet; result = number of E010 errors emitted *)
-Fixpoint vnums_go (dbg : bool) (fuel : nat) (vs : list vnum) (next : vnum) (cost : N) : res N :=
+(** serde.rs:1330-1354, the [if next_version < *version] statement.
+    [version.number - next_version.number] and [version.number - 1] cannot underflow under the
+    guard; the two numbers of the range message are printed with next_version's width (0, see
+    [vn_v1]), so the dynamic format width of section 7 is not involved. *)
+Definition gap_stmt (fuel : nat) (next v : vnum) (c : vcost) : res (vnum * vcost) :=
+  if vn_number next <? vn_number v then
+    if MAX_LISTED <? vn_number v - vn_number next
+    then Ok (mkV (vn_number v) (vn_width next), mkC (c_errors c + 1) (c_iters c))   (* one E010 for the range *)
+    else gap_loop fuel next (vn_number v) c
+  else Ok (next, c).
+
+(** serde.rs:1320-1361, the [for version in version_nums] loop; [vs] is the iteration order
+    of the BTreeSet *)
+Fixpoint vnums_go (fuel : nat) (vs : list vnum) (next : vnum) (c : vcost) : res vcost :=
   match vs with
-  | [] => Ok cost
+  | [] => Ok c
   | v :: rest =>
-      match (if negb (vn_number v =? vn_number next)           (* if *version != next_version *)
-             then gap_loop dbg fuel next (vn_number v) cost
-             else Ok (next, cost)) with
-      | Ok (next', cost') =>
-          match unwrap (vnext dbg next') with                  (* next_version = next_version.next().unwrap() *)
-          | Ok next'' => vnums_go dbg fuel rest next'' cost'
+      match gap_stmt fuel next v (mkC (c_errors c) (c_iters c + 1)) with
+      | Ok (next', c') =>
+          match unwrap (vnext_cur next') with                  (* serde.rs:1360 next_version = next_version.next().unwrap() *)
+          | Ok next'' => vnums_go fuel rest next'' c'
           | _ => Panic
           end
       | Err => Err
@@ -60,27 +90,42 @@ Fixpoint vnums_go (dbg : bool) (fuel : nat) (vs : list vnum) (next : vnum) (cost
       end
   end.
 
-Definition vn_v1 : vnum := mkV 1 0.                            (* VersionNum::v1() *)
-Definition validate_version_nums (dbg : bool) (fuel : nat) (vs : list vnum) : res N :=
-  vnums_go dbg fuel vs vn_v1 0.
+Definition vn_v1 : vnum := mkV 1 0.                            (* VersionNum::v1(), types.rs:269-274 *)
+(** the inner loop is entered with at most MAX_LISTED numbers to go: that much fuel is enough
+    (theorem C17_vnums_exact: the result is never [Err]) *)
+Definition validate_version_nums (vs : list vnum) : res vcost :=
+  vnums_go (N.to_nat MAX_LISTED) vs vn_v1 c0.
 
-(** serde.rs:1297-1304, 1318-1332: (E013 inconsistent padding, W001 zero padded) *)
+(** serde.rs:1321-1328, 1363-1377: (E013 inconsistent padding, W001 zero padded) *)
 Definition vnums_padding (vs : list vnum) : bool * bool :=
   match vs with
   | [] => (false, false)
   | v :: rest => (negb (forallb (fun x => vn_width x =? vn_width v) rest), 0 <? vn_width v)
   end.
 
-(** closed form of the loop over the numbers (what the correspondence evaluates):
-    each element adds its distance to the expected next number *)
-Fixpoint vnums_fast (vs : list N) (next cost : N) : N :=
+(** closed form of the loop over the numbers (what the correspondence evaluates): an element
+    at distance g from the expected next number adds g errors and g inner iterations when
+    g <= MAX_LISTED, one error and no inner iteration otherwise *)
+Definition gap_errors (g : N) : N := if MAX_LISTED <? g then 1 else g.
+Definition gap_iters (g : N) : N := if MAX_LISTED <? g then 0 else g.
+Fixpoint vnums_fast (vs : list N) (next : N) (c : vcost) : vcost :=
   match vs with
-  | [] => cost
-  | v :: rest => vnums_fast rest (N.max next v + 1) (cost + (v - next))
+  | [] => c
+  | v :: rest => vnums_fast rest (N.max next v + 1)
+                   (mkC (c_errors c + gap_errors (v - next)) (c_iters c + 1 + gap_iters (v - next)))
   end.
-Definition vnums_cost (vs : list N) : N := vnums_fast vs 1 0.
+Definition vnums_cost (vs : list N) : N := c_errors (vnums_fast vs 1 c0).
+Definition vnums_iters (vs : list N) : N := c_iters (vnums_fast vs 1 c0).
 
-(** the gaps the loop walks through, one per element *)
+(** the final [next_version.next().unwrap()] of an iteration (serde.rs:1360) fails when the
+    number reached is u32::MAX: next_version has width 0, for which [next] refuses u32::MAX *)
+Fixpoint vnums_overflow (vs : list N) (next : N) : bool :=
+  match vs with
+  | [] => false
+  | v :: rest => (U32MAX <=? N.max next v) || vnums_overflow rest (N.max next v + 1)
+  end.
+
+(** the gaps the loop meets, one per element *)
 Fixpoint vnums_gaps (vs : list N) (next : N) : list N :=
   match vs with
   | [] => []
@@ -126,7 +171,7 @@ Definition ecode_n (c : ecode) : N :=
   | E106 => 106 | E111 => 111 | EBody => 0
   end.
 
-(** recorded errors with multiplicity (the E010 count can be 4 * 10^9) *)
+(** recorded errors with multiplicity *)
 Definition errs := list (ecode * N).
 Definition has_errors (e : errs) : bool := existsb (fun x => 0 <? snd x) e.
 Definition err_count (c : ecode) (e : errs) : N :=
@@ -181,13 +226,14 @@ Definition addn (c : ecode) (n : N) (st : pst) : pst :=
   mkP (p_id st) (p_type st) (p_alg st) (p_head st) (p_cdir st) (p_manifest st) (p_versions st) (p_fixity st)
       (f_digest st) (f_head st) (f_manifest st) (f_versions st) (p_errs st ++ [(c, n)]).
 
+Definition is_nil' {A} (l : list A) : bool := match l with [] => true | _ => false end.
 Definition contains_slash (s : bytes) : bool := existsb (fun c => Ascii.eqb c "/"%char) s.
-(** serde.rs:289-297 and validate_content_dir (validate/mod.rs:53-61) use the same three tests *)
+(** serde.rs:295-303 and validate_content_dir (validate/mod.rs:53-61) use the same three tests *)
 Definition cdir_kind (s : bytes) : option ecode :=
   if bytes_eqb s (b ".") || bytes_eqb s (b "..") then Some E018
   else if contains_slash s then Some E017 else None.
 
-(** VersionsVisitor::visit_map, serde.rs:547-602: nums, map keys, errors, aborted by a syntax error *)
+(** VersionsVisitor::visit_map, serde.rs:563-627: nums, map keys, errors, aborted by a syntax error *)
 Fixpoint versions_fold (l : list (bytes * body)) (nums keys : list vnum) (e : errs)
   : list vnum * list vnum * errs * bool :=
   match l with
@@ -203,28 +249,48 @@ Fixpoint versions_fold (l : list (bytes * body)) (nums keys : list vnum) (e : er
       end
   end.
 
-Definition versions_value (l : list (bytes * body)) : list vnum * list vnum * errs * bool :=
+(** outcome of reading the value of "versions": [VVAbort] = serde error after the recorded
+    errors, [VVPanic] = validate_version_nums (serde.rs:615) panicked *)
+Inductive vvres :=
+| VVOk (nums keys : list vnum) (e : errs)
+| VVAbort (e : errs)
+| VVPanic.
+
+Definition versions_value (l : list (bytes * body)) : vvres :=
   let '(nums, keys, e, aborted) := versions_fold l [] [] [] in
-  if aborted then (nums, keys, e, true)
+  if aborted then VVAbort e
   else
-    let e1 := e ++ [(E010, vnums_cost (map vn_number nums))] in          (* validate_version_nums *)
-    let e2 := if fst (vnums_padding nums) then e1 ++ [(E013, 1)] else e1 in
-    (nums, keys, e2, false).
+    match validate_version_nums nums with                                (* serde.rs:615 *)
+    | Ok c =>
+        let e1 := e ++ [(E010, c_errors c)] in
+        let e2 := if fst (vnums_padding nums) then e1 ++ [(E013, 1)] else e1 in
+        VVOk nums keys e2
+    | _ => VVPanic
+    end.
 
 Definition set_errs (st : pst) (e : errs) : pst :=
   mkP (p_id st) (p_type st) (p_alg st) (p_head st) (p_cdir st) (p_manifest st) (p_versions st) (p_fixity st)
       (f_digest st) (f_head st) (f_manifest st) (f_versions st) e.
 
-(** one iteration of the field loop, serde.rs:160-393.
-    [inl st'] : continue;  [inr e] : [return Err(e)] - the visitor aborts with these recorded errors *)
-Definition step (st : pst) (it : item) : pst + errs :=
+(** one iteration of the field loop, serde.rs:171-399.
+    [SNext st'] : continue;  [SAbort e] : [return Err(e)] - the visitor aborts with these recorded
+    errors;  [SPanicked] : a panic unwinds out of the visitor *)
+Inductive sres := SNext (st : pst) | SAbort (e : errs) | SPanicked.
+Definition inl (st : pst) : sres := SNext st.
+Definition inr (e : errs) : sres := SAbort e.
+
+Definition step (st : pst) (it : item) : sres :=
   match it with
   | IId v =>
       if p_id st then inl (add E033 st)                                 (* duplicate_field *)
       else match v with
-           | SStr s => inl (mkP (Some s) (p_type st) (p_alg st) (p_head st) (p_cdir st) (p_manifest st)
-                                (p_versions st) (p_fixity st) (f_digest st) (f_head st) (f_manifest st)
-                                (f_versions st) (p_errs st))
+           | SStr s =>                                                   (* serde.rs:184-200 *)
+               (* [if value.is_empty() { E037 "must not be blank" } else if URI::try_from(value).is_err() { W005 }]
+                  (URI::try_from: section 8), then [id = Some(value)] in either case *)
+               inl (mkP (Some s) (p_type st) (p_alg st) (p_head st) (p_cdir st) (p_manifest st)
+                        (p_versions st) (p_fixity st) (f_digest st) (f_head st) (f_manifest st)
+                        (f_versions st)
+                        (if is_nil' s then p_errs st ++ [(E037, 1)] else p_errs st))
            | _ => inr (p_errs (add E037 st))
            end
   | IType v =>
@@ -295,11 +361,14 @@ Definition step (st : pst) (it : item) : pst + errs :=
       if p_versions st then inl (add E033 st)
       else match v with
            | VObj l =>
-               let '(nums, keys, e, aborted) := versions_value l in
-               if aborted then inr (p_errs st ++ e)
-               else inl (mkP (p_id st) (p_type st) (p_alg st) (p_head st) (p_cdir st) (p_manifest st)
-                             (Some (nums, keys)) (p_fixity st) (f_digest st) (f_head st) (f_manifest st)
-                             (f_versions st) (p_errs st ++ e))
+               match versions_value l with
+               | VVAbort e => inr (p_errs st ++ e)
+               | VVPanic => SPanicked
+               | VVOk nums keys e =>
+                   inl (mkP (p_id st) (p_type st) (p_alg st) (p_head st) (p_cdir st) (p_manifest st)
+                            (Some (nums, keys)) (p_fixity st) (f_digest st) (f_head st) (f_manifest st)
+                            (f_versions st) (p_errs st ++ e))
+               end
            | VScalar => inl (mkP (p_id st) (p_type st) (p_alg st) (p_head st) (p_cdir st) (p_manifest st)
                                  None (p_fixity st) (f_digest st) (f_head st) (f_manifest st)
                                  true (p_errs st ++ [(E044, 1)]))
@@ -317,19 +386,18 @@ Definition step (st : pst) (it : item) : pst + errs :=
   | IUnknown => inl (add E102 st)                                       (* unknown_field *)
   end.
 
-Fixpoint run (st : pst) (items : list item) : pst + errs :=
+Fixpoint run (st : pst) (items : list item) : sres :=
   match items with
-  | [] => inl st
-  | it :: rest => match step st it with inl st' => run st' rest | inr e => inr e end
+  | [] => SNext st
+  | it :: rest => match step st it with SNext st' => run st' rest | x => x end
   end.
 
-Definition is_nil' {A} (l : list A) : bool := match l with [] => true | _ => false end.
 Definition some {A} (o : option A) : bool := match o with Some _ => true | None => false end.
 
 Definition opt_err (c : bool) (code : ecode) : errs := if c then [(code, 1)] else [].
 
-(** serde.rs:395-441: the checks after the loop that the model covers
-    (E096/E050/E107 and validate_fixity only ever add errors) *)
+(** serde.rs:401-450: the checks after the loop that the model covers
+    (E096/E050/E107, serde.rs:452-493, and validate_fixity only ever add errors) *)
 Definition final_errs (st : pst) : errs :=
   opt_err (negb (some (p_id st))) E036                                   (* missing_inv_field *)
   ++ opt_err (negb (p_type st)) E036
@@ -366,7 +434,7 @@ Inductive pres :=
 | PAbort        (** Err(e): serde error, the recorded errors are kept *)
 | PPanicked.
 
-(** serde.rs:478-499 *)
+(** serde.rs:497-513 *)
 Definition finish (st : pst) : pres * errs :=
   let e := p_errs st ++ final_errs st in
   if has_errors e then (PNoInv, e)
@@ -382,8 +450,9 @@ Definition finish (st : pst) : pres * errs :=
 
 Definition visit (items : list item) : pres * errs :=
   match run p0 items with
-  | inl st => finish st
-  | inr e => (PAbort, e)
+  | SNext st => finish st
+  | SAbort e => (PAbort, e)
+  | SPanicked => (PPanicked, [])
   end.
 
 (* ------------------------------------------------------------------ *)
@@ -421,7 +490,7 @@ Definition set_eqb (x y : list (N * N)) : bool := subset x y && subset y x.
 Inductive psite := SGetVersion | SContentPaths | SPrettyPrint.
 Inductive xres := XOk (errors : N) | XPanic (s : psite) | XFuel.
 
-(** Display for PrettyPrintSet, types.rs:1343-1356: [let max = self.0.len() - 1] on usize:
+(** Display for PrettyPrintSet, types.rs:1344-1357: [let max = self.0.len() - 1] on usize:
     overflow check in a debug build; a release build wraps and the loop body never runs *)
 Definition pps_panics (dbg : bool) (len : N) : bool := dbg && (len =? 0).
 
@@ -514,7 +583,7 @@ Definition cross_check (dbg : bool) (root : ainv) (dirs : list (N * ainv)) : xre
 (* ------------------------------------------------------------------ *)
 (** * 4. validate_non_conflicting (cost) *)
 
-(** serde.rs:1420-1430, for one path:
+(** serde.rs:1468-1478, for one path:
       while let Some(index) = part.rfind('/') { part = &part[0..index]; if paths.contains(part) {..break} }
     every [contains] hashes the prefix: cost = sum of the prefix lengths (no conflict: no break).
     [slash_prefix_cost pos s] : s is the rest of the path, pos the index of its first character *)
@@ -532,7 +601,7 @@ Fixpoint rep_seg (n : nat) : bytes :=         (** "a/a/a/.../" n times "a/" *)
 (* ------------------------------------------------------------------ *)
 (** * 5. ContentPathsIter::next *)
 
-(** mod.rs:2099-2108: [while self.current_version != VersionNum::v1()] with
+(** mod.rs:2110-2119: [while self.current_version != VersionNum::v1()] with
     [previous().unwrap()]; [eq] is the equality used for [!=]; [has n] = path_map has paths for n.
     Result: the version whose paths are iterated next, or None at v1.  [Err] = fuel exhausted. *)
 Fixpoint cpi_walk (eq : vnum -> vnum -> bool) (dbg : bool) (fuel : nat) (cur : vnum) (has : N -> bool)
@@ -546,7 +615,7 @@ Fixpoint cpi_walk (eq : vnum -> vnum -> bool) (dbg : bool) (fuel : nat) (cur : v
                 end
        end.
 
-(** PartialEq for VersionNum, types.rs:401-405: numbers only *)
+(** PartialEq for VersionNum, types.rs:402-406: numbers only *)
 Definition vnum_eq_rust (a c : vnum) : bool := vn_number a =? vn_number c.
 
 (* ------------------------------------------------------------------ *)
@@ -602,14 +671,14 @@ Definition ssize (s : list (list tree)) : nat := fold_right (fun l n => (S (lsiz
 (* ------------------------------------------------------------------ *)
 (** * 7. Display of a VersionNum with a huge width *)
 
-(** types.rs:397 [write!(f, "v{:0width$}", self.number, width = self.width as usize)]: with the
+(** types.rs:398 [write!(f, "v{:0width$}", self.number, width = self.width as usize)]: with the
     pinned toolchain (rustc 1.95) a run-time width above u16::MAX panics
     ("Formatting argument out of range") *)
 Definition FMT_WIDTH_MAX : N := 65535.
 Definition vdisplay_panics (v : vnum) : bool := FMT_WIDTH_MAX <? vn_width v.
 
 (* ------------------------------------------------------------------ *)
-(** * 8. URI::try_from of uriparse 0.6.4 (third-party), called for "id" (serde.rs:173) and user "address" (serde.rs:1193) *)
+(** * 8. URI::try_from of uriparse 0.6.4 (third-party), called for "id" (serde.rs:190) and user "address" (serde.rs:1214) *)
 
 (** uri.rs:913-916 [URIReference::try_from(value).map_err(|e| URIError::try_from(e).unwrap())]: the
     conversion has no image for SchemelessPathStartsWithColonSegment (uri.rs:1535-1552), raised by
